@@ -90,7 +90,7 @@ package keeper
 
 // RefundHTLC does not check the state itself: its caller (BeginBlocker) hands it a record taken from the expiry queue.
 //@ func Keeper.RefundHTLC
-//@   property C03, C04
+//@   property C03, C04, C13
 //@   returns err
 //@   requires height >= 0
 //@   requires allSupWF && escrowInv && countersInv && allRecWF
@@ -99,6 +99,8 @@ package keeper
 //@   lemma @entry sumsGeAll(htlcs, id)
 //@   lemma @return sumsUpd(old(htlcs), id, get(htlcs, id), anydenom(1)) if err == nil
 //@   ensures @C03,C04,C13 never_fails: err == nil
+//@   ensures @C04,C13 keeps_recwf: err == nil ==> allRecWF
+//@   nopanic C13
 //@   ensures @C04 keeps_escrow:   err == nil ==> bal(MOD, anydenom(1)) == ESC(htlcs, anydenom(1))
 //@   ensures @C04 keeps_counters: err == nil ==> CIN(anydenom(1)) == INC(htlcs, anydenom(1)) && COUT(anydenom(1)) == OUT(htlcs, anydenom(1))
 //@   ensures @C04 keeps_wf:       err == nil ==> allSupWF
@@ -147,7 +149,7 @@ package keeper
 //@ end
 
 //@ func Keeper.DecrementIncomingAssetSupply
-//@   property C04
+//@   property C04, C13
 //@   returns err
 //@   requires supWF(coin.Denom) && coin.Amount >= 0
 //@   let r = SUP(coin.Denom)
@@ -156,6 +158,7 @@ package keeper
 //@   ensures counted: err == nil ==> old(has(supplies, coin.Denom)) && r.IncomingSupply.Amount >= coin.Amount
 //@                    && supplies == set(old(supplies), coin.Denom, with(r, "IncomingSupply", addTo(r.IncomingSupply, 0 - coin.Amount)))
 //@   ensures keeps_wf: err == nil ==> supWF(coin.Denom)
+//@   nopanic C13
 //@ end
 
 //@ func Keeper.IncrementOutgoingAssetSupply
@@ -170,7 +173,7 @@ package keeper
 //@ end
 
 //@ func Keeper.DecrementOutgoingAssetSupply
-//@   property C04
+//@   property C04, C13
 //@   returns err
 //@   requires supWF(coin.Denom) && coin.Amount >= 0
 //@   let r = SUP(coin.Denom)
@@ -179,6 +182,7 @@ package keeper
 //@   ensures counted: err == nil ==> old(has(supplies, coin.Denom)) && r.OutgoingSupply.Amount >= coin.Amount
 //@                    && supplies == set(old(supplies), coin.Denom, with(r, "OutgoingSupply", addTo(r.OutgoingSupply, 0 - coin.Amount)))
 //@   ensures keeps_wf: err == nil ==> supWF(coin.Denom)
+//@   nopanic C13
 //@ end
 
 //@ func Keeper.IncrementCurrentAssetSupply
@@ -253,7 +257,7 @@ package keeper
 //@ end
 
 //@ func Keeper.refundHTLT
-//@   property C03, C04
+//@   property C03, C04, C13
 //@   returns err
 //@   requires allSupWF
 //@   requires len(amount) == 1
@@ -269,6 +273,7 @@ package keeper
 //@   ensures outgoing:  err == nil && direction == OUTGOING ==> bal == payOut(old(bal), sender, amount)
 //@                      && supplies == set(old(supplies), c0.Denom, with(r, "OutgoingSupply", addTo(r.OutgoingSupply, 0 - c0.Amount)))
 //@   ensures keeps_wf:  err == nil ==> allSupWF
+//@   nopanic C13
 //@ end
 
 // ---------------------------------------------------------------------------------------------
@@ -329,11 +334,29 @@ package keeper
 //@ func Keeper.IterateHTLCExpiredQueueByHeight
 //@   inline
 //@   invariant #1 pos:   0 <= it_idx && it_idx <= it_n
-//@   invariant #1 inv:   allSupWF && escrowInv && countersInv && allRecWF
+//@   invariant #1 supwf:    allSupWF
+//@   invariant #1 escrow:   escrowInv
+//@   invariant #1 counters: countersInv
+//@   invariant #1 recwf:    allRecWF
 //@   invariant #1 todo:  forall j:Int :: it_idx <= j && j < it_n ==> has(htlcs, it_seq[j].k1) && get(htlcs, it_seq[j].k1).State == OPEN
 //@                       && get(htlcs, it_seq[j].k1) == old(get(htlcs, it_seq[j].k1)) && has(queue, height, it_seq[j].k1)
 //@   invariant #1 done:  forall j:Int :: 0 <= j && j < it_idx ==> get(htlcs, it_seq[j].k1).State == REFUNDED && !has(queue, height, it_seq[j].k1)
 //@                       && get(htlcs, it_seq[j].k1) == closed(old(get(htlcs, it_seq[j].k1)), REFUNDED, height)
 //@   invariant #1 others: forall i:Bytes :: !old(has(queue, height, i)) ==> get(htlcs, i) == old(get(htlcs, i)) && has(htlcs, i) == old(has(htlcs, i))
 //@   invariant #1 qframe: forall q:Int :: forall i:Bytes :: q != height ==> has(queue, q, i) == old(has(queue, q, i))
+//@ end
+
+//@ define CUR(d) = ite(has(supplies, d), SUP(d).CurrentSupply.Amount, 0)
+// The per-block window update touches only the time-limited bookkeeping: the incoming / outgoing / current counters
+// of every asset are unchanged, the window restarts (elapsed and time-limited amount zero) once the period is over.
+//@ func Keeper.UpdateTimeBasedSupplyLimits
+//@   property C04, C13
+//@   requires allSupWF && paramsValid
+//@   modifies supplies, prevTime
+//@   invariant #1 idx: rangeindex >= 0 - 1 && rangeindex < len(ASSETS)
+//@   invariant #1 wf:  allSupWF
+//@   invariant #1 counters: forall d:Str :: CIN(d) == old(CIN(d)) && COUT(d) == old(COUT(d)) && CUR(d) == old(CUR(d))
+//@   ensures keeps_wf: allSupWF
+//@   ensures counters_unchanged: forall d:Str :: CIN(d) == old(CIN(d)) && COUT(d) == old(COUT(d)) && CUR(d) == old(CUR(d))
+//@   nopanic
 //@ end
